@@ -20,6 +20,7 @@ def stepLine (st : DriverState) (line : String) : DriverState × String :=
     let (s', out) := Epochs.step st.epochs args
     ({ st with epochs := s' }, out)
   | "dec" :: args => (st, Dec.step args)
+  | "oracle" :: args => (st, Oracle.step args)
   | "infl" :: args =>
     let (s', out) := Inflation.step st.infl args
     ({ st with infl := s' }, out)
